@@ -309,6 +309,15 @@ func init() {
 					errs["monitor-pid"] = p.MonitorPID(old.pid)
 					errs["link-alias"] = p.LinkAlias(old.alias)
 					errs["exit-pid"] = p.SendExit(old.pid, errX)
+				errs["send-important-pid"] = p.SendImportant(old.pid, "important-to-old-pid")
+				errs["send-important-alias"] = p.SendImportant(old.alias, "important-to-old-alias")
+				errs["send-priority-pid"] = p.SendWithPriority(old.pid, "priority-to-old-pid", gen.MessagePriorityHigh)
+				_, errs["call-alias"] = p.CallWithTimeout(old.alias, "call-old-alias", 1)
+				_, errs["call-important-pid"] = p.CallImportant(old.pid, "call-important-old")
+				errs["monitor-alias"] = p.MonitorAlias(old.alias)
+				p.SetImportantDelivery(true)
+				errs["send-pid-important-flag"] = p.Send(old.pid, "flagged-important-to-old-pid")
+				p.SetImportantDelivery(false)
 					errs["response-old-ref"] = p.SendResponse(lateFrom, lateRef, "late-reply-for-old-incarnation")
 					errs["response-error-old-ref"] = p.SendResponseError(lateFrom, lateRef, errX)
 					return nil
